@@ -10,15 +10,20 @@
   composition with the UBJSON and JSON encoder theorems: CBOR → UBJSON (`cbor_to_ubjson`:
   valid UBJSON, same value up to the documented representation change, exactly the same when
   no number exceeds MaxInt64) and CBOR → JSON for float-free sources with UTF-8 strings
-  (`cbor_to_json`).  The other six pairs (UBJSON / JSON as SOURCE): executable mirrors composed
-  exactly as in the README + correspondence + oracle (both documents decoded by the
-  specifications).
+  (`cbor_to_json`).  UBJSON as SOURCE, from the UBJSON parser refinement (C06) and the bridge
+  between the two UBJSON grammars (SF/Proofs/UbjBridge*.lean): `ubjson_to_ubjson` (exactly the
+  source's value), `ubjson_to_cbor`, `ubjson_to_json` (float-free sources with UTF-8 strings).
+  JSON as SOURCE (three pairs): the JSON parser refinement (C04 `json_reads_value`) gives the
+  events of every grammatical text; the composition with the encoders is decided by the
+  executable mirrors composed exactly as in the README + correspondence + oracle (both
+  documents decoded by the specifications).
 -/
 import SF.Props.C07
 import SF.Props.C05
 import SF.Proofs.CborTree
 import SF.Proofs.UbjEncTop
 import SF.Proofs.JsonEncTop
+import SF.Proofs.UbjBridgeTop
 namespace SF.Props.C08
 open SF SF.Cbor SF.Cbor.Cst SF.Props.C01
 
@@ -150,3 +155,58 @@ theorem cbor_to_json (o : SF.Json.Enc.Enc) (i : Item) (h : i.ok = true)
   exact ⟨h1, v, h2, by rw [h3, tree_value]⟩
 
 end SF.PropsX.C08
+
+
+/-! ## UBJSON → UBJSON, UBJSON → CBOR, UBJSON → JSON -/
+
+namespace SF.PropsUbjSrc.C08
+open SF SF.Ubjson
+open SF.Ubjson.Parse (P parse events free)
+open SF.Ubjson.Wire (UItem)
+open SF.Ubjson.Syn (Item sized noFloat utf8)
+
+/-- C08, UBJSON → UBJSON: for EVERY grammatical UBJSON item `it` in any spelling (non-minimal
+integer and length widths, no-ops, counted and typed containers incl. nested ones, plain
+containers of any size; `free ≤ 1000000`: payload-free typed elements within the model's fuel
+— the only side condition), feeding the parser's events to the UBJSON encoder yields the wire
+form of a well-formed item that the reference decoder AND the parser read back as ONE value:
+EXACTLY the source's value. -/
+theorem ubjson_to_ubjson (it : Item) (h : it.ok = true) (hfree : free it ≤ 1000000) :
+    let evs := events (parse {} it.wire).1
+    ∃ u : UItem, u.ok = true ∧ Enc.encAll (evs.map XEv.ev) = u.wire ∧
+      Cst.decodeStream (Enc.encAll (evs.map XEv.ev)) = .ok [u.value] ∧ u.value = it.value ∧
+      (parse {} u.wire).2 = none ∧ build (events (parse {} u.wire).1) = some it.value :=
+  SF.Props.UbjBridge.ubjson_to_ubjson it h hfree
+
+/-- C08, UBJSON → CBOR (`sized`: no PLAIN container with 2^63 elements — the CBOR encoder
+theorem's size condition; implied by `it.wire.length < 2^63`, `sized_of_short`): the CBOR
+encoder's output for the parser's events is a well-formed RFC 7049 item that the CBOR reference
+decoder reads back completely and whose value is the source's value. -/
+theorem ubjson_to_cbor (it : Item) (h : it.ok = true) (hfree : free it ≤ 1000000) (hz : sized it = true) :
+    let evs := events (parse {} it.wire).1
+    ∃ j : SF.Cbor.Cst.Item, j.ok = true ∧ (SF.Cbor.Enc.run {} (evs.map XEv.ev)).1.w.out = j.wire ∧
+      SF.Cbor.Cst.decode j.wire = .ok (j, []) ∧ j.value = it.value :=
+  SF.Props.UbjBridge.ubjson_to_cbor it h hfree hz
+
+theorem sized_of_short (it : Item) (h : it.wire.length < 9223372036854775808) : sized it = true :=
+  SF.Props.UbjBridge.sized_of_short it h
+
+/-- C08, UBJSON → JSON: for every grammatical UBJSON item without `d` / `D` values whose strings,
+high-precision numbers and keys are well-formed UTF-8, feeding the parser's events to the JSON
+encoder (any options, fresh writer) succeeds and yields a JSON text that the RFC 8259 reference
+decoder accepts as exactly one value: the source's value. -/
+theorem ubjson_to_json (o : SF.Json.Enc.Enc) (it : Item) (h : it.ok = true) (hfree : free it ≤ 1000000)
+    (hf : noFloat it = true) (hu : utf8 it = true) (hw : o.w = {}) (ha : o.inArray.current = false) :
+    let evs := events (parse {} it.wire).1
+    (SF.Json.Enc.run o (evs.map XEv.ev)).2 = (none, .ok) ∧
+    ∃ v, SF.Json.Cst.decode (SF.Json.Enc.encAll o (evs.map XEv.ev)) = .ok [v] false ∧ v = it.value :=
+  SF.Props.UbjBridge.ubjson_to_json o it h hfree hf hu hw ha
+
+/-- non-vacuity: a typed array inside a counted object, a high-precision number, a non-minimal
+length; hypotheses of all three theorems hold -/
+example :
+    let it : Item := .objN .i [(.i, [0x6b], .arrT 0x69 .i [.int .i8 1, .int .i8 (-2)]), (.L, [], .str .l [0x68, 0x69])]
+    it.ok = true ∧ free it ≤ 1000000 ∧ sized it = true ∧ noFloat it = true ∧ utf8 it = true := by
+  decide +kernel
+
+end SF.PropsUbjSrc.C08
